@@ -59,6 +59,10 @@ struct Workload {
     inputs: Vec<String>,
     shared_cfg: usize,
     threads: Vec<Vec<Step>>,
+    /// cache pressure: that many distinct trivial configurations are built through the cache
+    /// before the threads start (bounded caches, eviction, rehashing)
+    #[serde(default)]
+    prefill: usize,
 }
 
 fn to_modes(cfg: &Config) -> Vec<ScannerMode> {
@@ -186,7 +190,12 @@ fn gen_workload(seed: u64, idx: u64) -> Workload {
         }
         threads.push(script);
     }
-    Workload { configs, failing, inputs, shared_cfg, threads }
+    let prefill = if rng.chance(1, 8) { *rng.pick(&[7usize, 31, 127, 129, 255]) } else { 0 };
+    Workload { configs, failing, inputs, shared_cfg, threads, prefill }
+}
+
+fn trivial_config(i: usize) -> Config {
+    vec![ModeSpec { name: "INITIAL".into(), patterns: vec![PatternSpec { pattern: format!("a{{{}}}", 1 + i % 5), token_type: i, lookahead: None }], transitions: vec![] }]
 }
 
 fn rng_pick_cfg(configs: &[Config], idx: u64) -> &Config {
@@ -286,6 +295,10 @@ fn fnv(h: &mut u64, x: u64) {
 fn scenario(w: Arc<Workload>, exp: Arc<Vec<Vec<Res>>>, widx: u64) {
     EXECUTIONS.fetch_add(1, std::sync::atomic::Ordering::Relaxed);
     let order: Arc<Mutex<Vec<(usize, usize)>>> = Arc::new(Mutex::new(Vec::new()));
+    for i in 0..w.prefill {
+        let sc = ScannerBuilder::new().add_scanner_modes(&to_modes(&trivial_config(i))).build().expect("trivial configuration builds");
+        assert_eq!(sc.mode_name(0), Some("INITIAL"));
+    }
     // the shared scanner comes out of the cache too
     let shared = Arc::new(
         ScannerBuilder::new()
@@ -418,10 +431,14 @@ fn main() {
             let mut samples = Vec::new();
             let mut step_kinds: BTreeMap<String, u64> = BTreeMap::new();
             let mut workloads = 0u64;
+            let mut pressure = 0u64;
             for widx in from..to {
                 let w = Arc::new(gen_workload(seed, widx));
                 let exp = Arc::new(expected(&w));
                 workloads += 1;
+                if w.prefill > 0 {
+                    pressure += 1;
+                }
                 for t in &w.threads {
                     for s in t {
                         let k = format!("{:?}", s);
@@ -462,6 +479,7 @@ fn main() {
             let hm = *HITS_MISSES.lock().unwrap();
             let rep = serde_json::json!({
                 "workloads": workloads,
+                "cache_pressure_workloads": pressure,
                 "executions": EXECUTIONS.load(std::sync::atomic::Ordering::Relaxed),
                 "distinct_interleavings": INTERLEAVINGS.lock().unwrap().len(),
                 "cache_hits": hm.0, "cache_misses": hm.1, "failing_builds": hm.2,
